@@ -75,7 +75,7 @@ type engineA struct {
 	clientWG    sync.WaitGroup
 	pauseLoad   int32
 
-	ids      []uint64 // node ids ever used
+	ids      []uint64          // node ids ever used
 	refused  map[uint64]string // members the leader refused as faulty followers (seen while waiting for convergence)
 	moves    int
 	parked   map[uint64]bool
@@ -309,6 +309,11 @@ func (e *engineA) finish() error {
 		}
 	}
 	e.stopLoad()
+	for _, n := range e.cl.liveNodes() {
+		// quiet now: the status report through the remote client must be the
+		// in-process one
+		e.cl.remoteInfo(n)
+	}
 	for _, n := range e.cl.liveNodes() {
 		n.dump("final")
 	}
